@@ -10,7 +10,11 @@ import re
 from .. import core, runner
 from . import c03
 
-THEOREMS = ["ZI.Classes.C01_asis_violates", "ZI.Classes.C01_repaired_witness", "ZI.Graph2.C02_implied"]
+THEOREMS = ["ZI.Classes.C01_asis_violates", "ZI.Classes.C01_repaired_witness", "ZI.Graph2.C02_implied",
+            # history theorems on ZI.Classes2 (same logic on the proved graph model; cross-checked against ZI.Classes by the driver on every line)
+            "ZI.C01.C01_exact", "ZI.C01.C01_exact_exec", "ZI.C01.sim_step", "ZI.C01.sim_run", "ZI.C01.C01_sandwich", "ZI.C01.C01_sandwich_upper",
+            "ZI.C01.C01_sandwich_lower", "ZI.C01.C01_kept_persists", "ZI.C01.C01_independent", "ZI.C01.C01_independent_real",
+            "ZI.C01.C01_noLonger_error", "ZI.C01.C01_nonvacuous", "ZI.C01.implB_iff", "ZI.C01.provB_iff"]
 
 
 def gen_script(rnd, tier):
@@ -298,7 +302,9 @@ CORPUS = [
 
 def check(tier):
     chk = core.Check("C01", tier)
-    chk.obligations(THEOREMS, ["C01_sandwich (invariant over all declaration histories)", "C01_exact", "C01_independent"])
+    chk.obligations(THEOREMS, ["C01_exact for histories outside guard G-nodup (a direct declaration naming an interface twice, e.g. alsoProvides of an "
+                               "interface that is already directly provided) and with interface re-basing: evaluated by the sandwich oracle only",
+                               "formal equivalence ZI.Classes = ZI.Classes2 (checked by the driver on every line of every run instead)"])
     rnd = core.rng("C01")
     nscripts = {"quick": 300, "thorough": 6000}[tier]
     scripts = [list(s) for s in CORPUS] + [gen_script(rnd, tier) for _ in range(nscripts)]
@@ -326,6 +332,21 @@ def check(tier):
         runner.report_divergences(chk, divs, "declarations-layer correspondence (ZI.Classes vs declarations.py, C fast paths)",
                                   "sandwich oracle accepted all %d answers" % chk.counters.get("answers_checked", 0))
         core.lean_failure_violation(chk)
+    # how much of the generated histories lies inside the guards of C01_exact (decided by the driver with the theorem's own WFop)
+    wfl = []
+    for sc in scripts:
+        wfl += list(sc) + ["wf :"]
+    try:
+        mo = core.run_model("classes", wfl, ["fixed"])
+        rows = [x.split() for x in mo if x.startswith("wf ")]
+        chk.counters["histories_wellformed_to_the_end"] = sum(1 for r in rows if r[1] == "true")
+        chk.counters["histories_total"] = len(rows)
+        chk.counters["ops_issued_inside_theorem_guards"] = sum(int(r[2]) for r in rows)
+        chk.counters["ops_total"] = sum(int(r[3]) for r in rows)
+        chk.counters["shadow_model_disagreements"] = sum(1 for x in mo if "MODELDIFF2" in x)
+        chk.counters["abstract_spec_disagreements"] = sum(1 for x in mo if "SPECDIFF" in x)
+    except core.Infra as e:       # pragma: no cover
+        chk.counters["wf_stats_error"] = str(e)[-200:]
     ops = {}
     for l in lines:
         k = l.split(" ", 1)[0]
